@@ -154,6 +154,78 @@ def twin_dispatch_oracle(rep, rng, tier, names):
                 break
 
 
+FAMILY_MODULES = ['bsd', 'dyld', 'fsystem', 'mach', 'perf', 'trace', 'turnstile']
+
+
+def registration_snapshot():
+    import importlib
+    snap = {}
+    for m in FAMILY_MODULES:
+        mod = importlib.import_module('pykdebugparser.trace_handlers.' + m)
+        snap[m] = {k: id(v) for k, v in mod.handlers.items()}
+    return snap
+
+
+def name_variants(name):
+    """Other spellings a code table of another release might use for the same call: one '_'-separated part dropped, a
+    'sys_' part added behind the family prefix, the family prefix swapped."""
+    parts = name.split('_')
+    out = set()
+    for i in range(len(parts)):
+        v = '_'.join(parts[:i] + parts[i + 1:])
+        if v and v != name:
+            out.add(v)
+    if len(parts) > 1:
+        out.add('_'.join([parts[0], 'sys'] + parts[1:]))
+        out.add('_'.join([{'BSC': 'MSC', 'MSC': 'BSC'}.get(parts[0], 'X' + parts[0])] + parts[1:]))
+    return sorted(out)
+
+
+def foreign_tables_history(rep, rng, tier):
+    """Parsers over OTHER tables come and go in a process (a caller-supplied table of another release names calls
+    differently).  None of them may change what is registered: after parsers have been built over tables that give every
+    decoder's id another spelling of its name (and have each seen a record), the registration tables of the seven
+    families hold exactly the entries they held at import, and (section `dispatch`, which runs next) every decoder is still
+    reached under the bundled table."""
+    from pykdebugparser.kevent import from_kd_buf
+    from pykdebugparser.traces_parser import TracesParser
+    sec = rep.section('foreign-tables')
+    sec['rule'] = ('TracesParser built over tables that spell every registered name differently (one part dropped, "sys_" added, '
+                   'family prefix swapped — one table per kind of variant, plus a table of reversed names), each fed one window per '
+                   'id; afterwards the handlers dicts of the seven family modules must hold exactly their entries of import time')
+    before = registration_snapshot()
+    names = [n for n in D.all_handler_names() if n in D.IDS]
+    kinds = max(len(name_variants(n)) for n in names)
+    for k in range(kinds + 1):
+        table = dict(D.CODES)
+        for n in names:
+            vs = name_variants(n)
+            table[D.IDS[n]] = n[::-1] if (k == kinds or not vs) else vs[k % len(vs)]
+        try:
+            pr = TracesParser(table, {}, {})
+            for n in rng.sample(names, min(len(names), 40 if tier == 'quick' else len(names))):
+                c = D.make_case(rng, n, nlookups=0)
+                try:
+                    pr.parse_event_list([from_kd_buf(r) for r in D.window_events(c)])
+                except Exception:
+                    pass
+        except Exception as e:
+            rep.add_failure('dispatch:foreign-table-raises', 'building a TracesParser over a table with other spellings raised '
+                            + core.err_name(e), {'section': 'foreign-tables', 'kind': k})
+        sec['cases'] += 1
+    after = registration_snapshot()
+    for m in FAMILY_MODULES:
+        if after[m] != before[m]:
+            gone = sorted(set(before[m]) - set(after[m]))
+            new = sorted(set(after[m]) - set(before[m]))
+            moved = sorted(k for k in set(before[m]) & set(after[m]) if before[m][k] != after[m][k])
+            rep.add_failure('dispatch:registration-changed:' + m,
+                            'after parsers over other tables were built, trace_handlers.%s.handlers lost %s, gained %s, re-bound %s'
+                            % (m, gone[:6], new[:6], moved[:6]), {'section': 'foreign-tables', 'module': m})
+        else:
+            sec['distinct_nontrivial'] += 1
+
+
 def dispatch_oracle(rep, rng, tier):
     """Reachability exercised, not only read off the tables: for every registered decoder a window under the bundled
     table goes through TracesParser.parse_event_list and must come back as the text the decoder itself produces.  Before
@@ -211,6 +283,7 @@ def dispatch_oracle(rep, rng, tier):
 
 def correspondence(rep, rng, tier):
     seen = table_oracle(rep)
+    foreign_tables_history(rep, rng, tier)
     dispatch_oracle(rep, rng, tier)
     names = [n for n in D.supported_names() if n.endswith('_nocancel') or (n + '_nocancel') in seen]
     D.section_decoders(rep, rng, tier, names=names, name='decoders-twins', per=6 if tier == 'quick' else 80,
@@ -230,6 +303,8 @@ def replay(path):
     rep = core.Report('C17', 'quick', 0)
     if rp.get('section') == 'tables':
         table_oracle(rep)
+    elif rp.get('section') == 'foreign-tables':
+        foreign_tables_history(rep, random.Random(0), 'quick')
     elif rp.get('section') == 'dispatch':
         saved = D.make_case
         D.make_case = lambda rng, n, nlookups=None, err=None: rp['case']
